@@ -72,6 +72,8 @@ SETTERS = [
     ("setParticlePositions_vec", r'void\s+setParticlePositions\s*\(\s*const\s+std::vector<double>\s*&pp\s*\)', "void ps_setParticlePositions_vec(ParticleSwarmState *self, const double *pp, size_t pp_size)"),
     ("setBestParticlePositions_ptr", r'void\s+setBestParticlePositions\s*\(\s*const\s+double\s+bpp\[\]\s*\)', "void ps_setBestParticlePositions_ptr(ParticleSwarmState *self, const double bpp[])"),
     ("setBestParticlePositions_vec", r'void\s+setBestParticlePositions\s*\(\s*const\s+std::vector<double>\s*&bpp\s*\)', "void ps_setBestParticlePositions_vec(ParticleSwarmState *self, const double *bpp, size_t bpp_size)"),
+    ("setParticlePositions_mv", r'void\s+setParticlePositions\s*\(\s*std::vector<double>\s*&&\s*pp\s*\)', "void ps_setParticlePositions_mv(ParticleSwarmState *self, const double *pp, size_t pp_size)"),
+    ("setBestParticlePositions_mv", r'void\s+setBestParticlePositions\s*\(\s*std::vector<double>\s*&&\s*bpp\s*\)', "void ps_setBestParticlePositions_mv(ParticleSwarmState *self, const double *bpp, size_t bpp_size)"),
     ("clearBestParticles", r'void\s+clearBestParticles\s*\(\s*\)', "void ps_clearBestParticles(ParticleSwarmState *self)"),
     ("clearCache", r'void\s+clearCache\s*\(\s*\)', "void ps_clearCache(ParticleSwarmState *self)"),
 ]
@@ -85,7 +87,7 @@ def emit_setters(R):
         b = p.body
         b = R.sub("R2-numeric-limits", r'std::numeric_limits<double>::max\(\)', 'TSG_DBL_MAX', b)
         # vector copy-assignment member = param  (element-wise copy, sizes were checked by checkVarSize)
-        b = R.sub("R5-vector-assign", r'\b(particle_positions|best_particle_positions)\s*=\s*(pp|bpp)\s*;', r'tsg_copy_n_double(\2, \2_size, \1);', b)
+        b = R.sub("R5-vector-assign", r'\b(particle_positions|best_particle_positions)\s*=\s*(?:std::move\(\s*)?(pp|bpp)\s*\)?\s*;', r'tsg_copy_n_double(\2, \2_size, \1);', b)
         b = X.balanced_call_sub(R, "R9-checkVarSize", b, r'\bcheckVarSize\s*(?=\()',
                                 lambda m, a: "if ((%s) != (size_t)(%s)) { tsg_exc = TSG_RUNTIME_ERROR; return; }" % (X.split_top(a)[2].replace(".size()", "_size"), X.split_top(a)[3]))
         b = b.replace("return; };", "return; }")
